@@ -241,7 +241,7 @@ class SDM():
                     isthere = False
                     if new_atom.part.n >= 0:
                         for atom in showatoms:
-                            if atom.part.n != new_atom.part.n:
+                            if atom.part.n != new_atom.part.n or atom.qpeak:
                                 continue
                             length = sdm.vector_length(new_atom.x - atom.x,
                                                        new_atom.y - atom.y,
